@@ -160,13 +160,14 @@ package kfake
 // with its last offset delta) before any producer state is looked up and before the append - pushBatch advances the
 // high watermark by that count (the obligation that exposed the fixed defect of C32: a negative count moved the high
 // watermark backwards). (The decoded batch is a local whose address was handed to ReadFrom: after later calls the
-// verifier no longer knows its fields, hence the two program points.)
+// verifier no longer knows its fields: the idempotent path is checked where the producer state is looked up, the
+// plain path at its own pushBatch call.)
 //@ func (c *Cluster) handleProduce(creq *clientReq) (resp kmsg.Response, err error)
 //@   prop C29 C32
 //@   abstract call pushBatch
 //@   site call pushAndValidate#0 assert [window-consulted-with-the-batchs-own-numbers] arg1 == b.ProducerEpoch && arg2 == b.FirstSequence && arg3 == b.NumRecords && arg4 == pd.highWatermark
 //@   site call pushBatch#0 assert [appended-only-when-validated-and-new] errCode == 0 && !dup && arg1 == pd
 //@   site call get#0 assert [record-count-validated-before-producer-state-is-touched] b.NumRecords > 0 && b.LastOffsetDelta == b.NumRecords - 1
-//@   site call pushBatch#0 assert [record-count-validated-before-the-append] !reached($get0_0) ==> (b.NumRecords > 0 && b.LastOffsetDelta == b.NumRecords - 1)
+//@   site call pushBatch#1 assert [record-count-validated-before-the-plain-append] b.NumRecords > 0 && b.LastOffsetDelta == b.NumRecords - 1 && arg1 == pd
 //@   site call pushAndValidate#0 assume b.FirstSequence >= 0 && b.NumRecords >= 0  // NOT validated by the handler for a producer id >= 0 (a hostile client only corrupts its own window); the count is checked above, before the decoded batch escaped
 //@   site call pushAndValidate#0 assume window != nil ==> (window.count <= 5 && window.at < 5)  // pidwindow's own invariant (its methods keep it: C29 contract of pushAndValidate)
